@@ -83,6 +83,13 @@ def resolutions(tier):
     for ppqn in (96, 480, 960):
         for fl in (FLAGS[0], FLAGS[15], FLAGS[4], FLAGS[11]):
             yield dict(fl=fl, vb=2, nt=2, pr=(60, 61), nv=0, st=0, tsr=0, ppqn=ppqn)
+    # odd resolutions with the default step sizes / note values (bar capacities ppqn * n / 2 are no whole numbers for odd n)
+    for ppqn in (45, 15, 7):
+        for fl in (FLAGS[0], FLAGS[15]):
+            yield dict(fl=fl, vb=2, nt=2, pr=(60, 61), nv=0, st=0, tsr=0, ppqn_only=ppqn)
+    # inputs whose ticks are float SUMS (a stretch by 1/k with an event inside the note): just below / above a note value
+    for fl in (FLAGS[0], FLAGS[15]):
+        yield dict(fl=fl, vb=1, nt=1, pr=(60, 61), nv=0, st=0, tsr=0, float_sums=True)
 
 
 def context(tier, seed):
@@ -120,6 +127,10 @@ def make_tok(cfg):
         st = None
     else:
         nv, st = VALUE_SETS[cfg["nv"]], STEP_SETS[cfg["st"]]
+    if cfg.get("ppqn_only"):
+        return Tok(ppqn=cfg["ppqn_only"], num_tracks=cfg["nt"], pitch_range=tuple(cfg["pr"]), velocity_bins=cfg["vb"],
+                   time_signature_range=TSR[cfg["tsr"]], flag_running_values=fl[0], flag_fuse_track=fl[1],
+                   flag_fuse_value=fl[2], flag_fuse_velocity=fl[3])
     if cfg.get("ppqn"):
         q = cfg["ppqn"]
         return Tok(ppqn=q, num_tracks=cfg["nt"], pitch_range=tuple(cfg["pr"]), velocity_bins=cfg["vb"],
@@ -181,6 +192,16 @@ def pool(cfg, t):
             out.append(("float_ticks_from_halving", tracks(f)))
         except Exception:  # noqa: BLE001
             pass
+    if cfg.get("float_sums"):
+        for k in (3, 5, 6, 7, 9, 10, 11, 12):
+            for v in (4, 6, 12):
+                for m in range(1, v * k):
+                    g = lib.seq_abs([(0, v * k, lo, 0, 64)], [("cc", m, 64, 100)], 96 * k)
+                    try:
+                        g.scale(1 / k, quantise_afterwards=False)
+                        out.append((f"float_sum_1/{k}_{v}_{m}", tracks(g)))
+                    except Exception:  # noqa: BLE001
+                        pass
     odd = next(x for x in (5, 7, 10, 11, 13) if x not in vals)
     out.append(("value_not_allowed_in_the_middle", tracks(lib.seq_abs([(0, vm, lo, 0, 64), (24, odd, hi, 0, 64), (48, vm, lo, 0, 64)]))))
     bars = Sequence.sequences_split_bars([lib.seq_abs([(0, vm, lo, 0, 64), (72 + 24, vm, hi, 0, 90)], [("ts", 0, 3, 4)])], 0)[0]
